@@ -1,7 +1,7 @@
 ---- MODULE Gen_Message ----
 (* Composition histories (binding G) for C20: New; Sign*; [Encrypt; Decrypt]; Export; Import.     *)
 EXTENDS Naturals, Sequences, FiniteSets, TLC
-Contents == {"empty", "ascii", "utf8", "latin1-hint", "binary", "big", "farcopy", "bom"}   \* farcopy: 24 KB whose second half repeats the first (back-references 12 000 octets away)
+Contents == {"empty", "ascii", "utf8", "latin1-hint", "binary", "big", "farcopy", "bom", "armorinside"}   \* farcopy: 24 KB whose second half repeats the first (back-references 12 000 octets away)
 Formats == {"auto", "b", "t", "u"}
 Names == {"none", "console", "nonascii", "long255"}
 Comps == {0, 1, 2, 3}
